@@ -106,7 +106,7 @@ func checkC04(p *Prog, res *Result, tier string) {
 	res.Explanation = "PAIR in the full-core planners (heap and affinity variants) every path through the innermost loop writes into the plan exactly what it takes off the core's pieces, and the core is kept for a later plan only on a path past `pieces left > 0`; FRAG a core yields pieces/fragment fragment plans of `fragment` pieces each; " +
 		"POOL newHost puts a core into the full pool only if its free pieces are a positive multiple of the share base and into the fragment pool only if it has free pieces; MOVE when full cores become fragment cores they are removed from the full pool in the same step ([:k] with [k:], [0] with [1:]), so no core is planned from both pools; " +
 		"NUMA the plans of a NUMA node are computed from that node's cores (numaCPUMap[id], built from the capacity topology with the available pieces of each core) and that node's free memory (NUMAMemory[id]), are labelled with the same id, and each is subtracted (pieces, memory, NUMA memory under the same id) from the available resource before the cross-node remainder is planned; " +
-		"MEM the plans of one planning call are cut to availableMemory / memoryRequest, the memory-only allocation is refused when availableMemory / request < count, the CPU allocation is refused when fewer plans than instances exist and uses exactly the first `count` plans; AVL the available resource is capacity minus usage on a deep copy; " +
+		"MEM the plans of one planning call are cut to availableMemory / memoryRequest, the memory-only allocation is refused when availableMemory / request < count, the CPU allocation is refused when fewer plans than instances exist and uses exactly the first `count` plans; AVL the available resource is capacity minus usage on a deep copy; ADM a re-allocation returns the origin to the pool and then admits the full new request (origin + delta), not the delta, in both branches; " +
 		"REC the recorded workload resources carry the plan's core map and NUMA node, and NUMA memory under that node; VAL a node's resource record is validated (usage ≤ capacity per core and per NUMA node) before it is written."
 	res.NotCovered = "the arithmetic of the planner for concrete topologies (that the mixed full+fragment combination index-wise pairs disjoint cores follows from MOVE and is not re-derived per input); the choice of the best full/fragment split; integer rounding of requests (C05); termination and index bounds (C06)"
 	res.Assumptions = []string{"container/heap and sort behave as documented", "a core's free pieces are ≥ 0 on entry (VAL on every write)"}
@@ -127,6 +127,9 @@ func checkC04(p *Prog, res *Result, tier string) {
 	c04NUMA(p, res)
 	c04Mem(p, res)
 	c04Rec(p, res)
+	// ADM (shared with C10): a re-allocation is admitted by testing the FULL new request (origin + delta) against the pool
+	// to which the origin was returned, in the CPU-bound and in the memory branch
+	checkReallocAdmission(p, res)
 }
 
 // ---- PAIR
